@@ -435,6 +435,19 @@ class TermText(Native):
             return self.text() == other
         return False
 
+    def sa_getattr(self, interp, name):
+        if name == "join":
+            def join(it, a, kw):
+                items = list(it.iterate(a[0]))
+                parts = []
+                for i, x in enumerate(items):
+                    if i:
+                        parts.append(self)
+                    parts.append(x)
+                return join_text(parts) if parts else ""
+            return NativeMethod(join)
+        raise Incomplete(f"attribute {name} of TermText not modelled")
+
     def sa_binop(self, interp, op, other, reflected):
         if op not in ("__add__", "__radd__"):
             return NotImplemented
@@ -519,6 +532,16 @@ class MT(Native):
 
     def m__is_global(self):
         return bool(self.is_global)
+
+    # the semi-public text accessors: the term's text with the group the context requires (re-parsing restores the term)
+    def m__concat_conditional_group(self):
+        return TermText(self.t, to_text(self.t, "cat"))
+
+    def m__quantify_conditional_group(self):
+        return TermText(self.t, to_text(self.t, "rep"))
+
+    def m__assert_conditional_group(self):
+        return TermText(self.t, to_text(self.t, "cat"))
 
     def m_concat(self, pre, on_right=True):
         o = self.env.term(pre)
